@@ -30,6 +30,7 @@ import signal
 from ..impl import c10_handlers as hd
 from ..impl import c10_round as rm
 from ..translate import c10 as tr
+from ..translate import c10_classes as trc
 
 PROPERTY = "C10"
 THEOREM_MODULE = "NemoVerif.Theorems.C10"
@@ -178,6 +179,15 @@ ERR_FLOWS = {
     "meta-action-bad": ['@meta(bot_action="did {1/0}")', "flow helper_a", "  $x = 1", ""],
 }
 M_EVENT = {"type": "M", "x": "str"}
+
+
+# ----------------------------------------------------------------------------- translator (static tie, every run)
+
+def translate():
+    """slide()'s dispatch shape + the two sites of the conversion step of process_events as data (Generated/C10Classes.lean)"""
+    info = dict(tr.check_slide_shape())
+    info.update(trc.run())
+    return info
 
 
 # ----------------------------------------------------------------------------- generator
@@ -612,6 +622,7 @@ class _R:
     round = None
     round_ctx = None
     frame = None
+    ref_class = None
     resolve_heads = None  # heads handed to the _resolve_action_conflicts call that is running (None outside)
     emit_flow = None      # flow whose action event is being evaluated / built inside that call
     state = None
@@ -650,6 +661,10 @@ def worker_init():
         "logai": sm._log_action_or_intents,
     }
     rm.init()
+    try:
+        _R.ref_class = trc.match_ref_class()  # class of the reference event of `match ColangError()` in the tree under test
+    except Exception:  # noqa
+        _R.ref_class = None
     install()
     # run-time tie of the CoreVM frame theorem vm_advance_frame: wraps the CURRENT statemachine._advance_head_front (nothing else here patches it)
     from ..translate.c10_frame import FrameRecorder
@@ -934,6 +949,8 @@ def install():
         st = _R.st
         rc = _R.round_ctx
         rnd = None
+        if st is not None and not isinstance(ev, dict) and getattr(ev, "name", None) == "ColangError":
+            st["conv_classes"].append(type(ev).__name__)  # the event process_events created for an exception that left run_to_completion
         if st is not None:
             st["rtc_calls"] += 1
             if st["rtc_calls"] > st["rtc_limit"]:
@@ -1066,7 +1083,7 @@ def run_impl(case):
     for ev in case["events"]:
         st = {"slides": 0, "moves": 0, "ievents": 0, "colang_errors": 0, "rtc_exc": [], "samples": [], "scans": [], "scan": None,
               "over_bound": [], "max_iter_ratio": 0.0, "budget": 10 ** 9, "rounds": [], "errs": [], "failed_uids": [], "failed_flows": [], "rtc_site": [], "leaf": [],
-              "err_texts": [], "phases": 0, "phase_limit": 10 ** 9, "rtc_calls": 0, "rtc_limit": 10 ** 9}
+              "err_texts": [], "phases": 0, "phase_limit": 10 ** 9, "rtc_calls": 0, "rtc_limit": 10 ** 9, "conv_classes": []}
         st["budget"] = BUDGET_FACTOR * (sum(len(p) for p in progs.values()) + 10)
         _R.st = st
         call = {"event": ev["type"], "out": [], "pe_exc": None, "budget_hit": None}
@@ -1097,6 +1114,7 @@ def run_impl(case):
         call["failed_flows"] = sorted(set(st["failed_flows"]))
         call["err_types"] = sorted({e[3] for e in st["errs"]})
         call["err_phases"] = sorted({e[2] for e in st["errs"]})
+        call["conv_classes"] = list(st["conv_classes"])
         call["phases"] = st["phases"]
         call["handler_errs"] = sorted({e[1] for e in st["errs"] if e[1] in obs.get("handlers", {})})
         for t in st["err_texts"]:
@@ -1143,6 +1161,7 @@ def run_impl(case):
                 texts.append(t)
         obs["pipeline"] = [hd.pipeline(_R.orig["eval"], ev_mod._escape_string, ut_mod.escape_special_string_characters, t) for t in texts]
     del obs["texts"]
+    obs["ref_class"] = _R.ref_class
     if fr is not None:
         obs["frame"] = dict(fr.summary(), first=[list(v) for v in fr.violations[:3]])
     obs["round_orphans"] = obs["round_orphans"][:3]
@@ -1332,7 +1351,29 @@ def model_requests(case, obs):
         reqs.append({"m": "C10.round", "prog": obs["rprog"], "rounds": [{"tokens": r["tokens"], "steps": r["steps"]} for r in obs["rounds_full"]]})
     if "pipeline" in obs:
         reqs.append({"m": "C10.escape", "texts": [p["text"] for p in obs["pipeline"]], "templates": obs.get("templates", [])})
+    c = _conversion_call(case, obs)
+    if c is not None:
+        reqs.append({"m": "C10.convert", "raised": [1 + (sum(map(ord, x)) % 97) for x in c["rtc_exc"]],
+                     "converted_class": trc.CLASS_CODES.get(c["conv_classes"][0], 9), "ref_class": trc.CLASS_CODES.get(obs.get("ref_class"), 9)})
     return reqs
+
+
+def _reporting(case, obs):
+    hs = obs.get("handlers", {})
+    rep = [h for h in case.get("meta", {}).get("handlers", []) if h in REPORTING_HANDLERS and h in hs]
+    return rep if rep and all(v[0] for v in hs.values()) else []
+
+
+def _conversion_call(case, obs):
+    """the first process_events call of the run in which exceptions left run_to_completion, were converted, and nothing else was reported
+    (every ColangError event of the call is a converted one) — in a program with total reporting handlers: the instance of the Lean
+    model of the conversion loop (Models/ProcessEvents.lean) this run is compared with"""
+    if case["kind"] != "prog" or not _reporting(case, obs):
+        return None
+    for c in obs.get("calls", []):
+        if len(c["rtc_exc"]) == 1 and not (c["budget_hit"] or c["pe_exc"]) and len(c.get("conv_classes", [])) == 1 and c["colang_errors"] == 1:
+            return c
+    return None
 
 
 def _real_stop(rec, prog):
@@ -1420,6 +1461,18 @@ def compare(case, obs, mouts):
                     return f"round machine: B(program, state) Lean {mr['bound']} vs Python {r['bound']}"
                 if isinstance(mr["replay"], str):
                     return "round machine: a recorded real step is not a step of the abstraction: " + mr["replay"][:300]
+    cc = _conversion_call(case, obs)
+    if cc is not None:
+        # (the request is the LAST one: index -1 whatever the optional requests in front of it)
+        m = mouts[-1]
+        rep = _reporting(case, obs)
+        if m["generated_converted"] != trc.CLASS_CODES.get(cc["conv_classes"][0], 9) or m["generated_ref"] != trc.CLASS_CODES.get(obs.get("ref_class"), 9):
+            return (f"conversion step: the classes the translator extracted (converted {m['generated_converted']}, reference {m['generated_ref']}) are not the ones "
+                    f"observed at run time ({cc['conv_classes'][0]}, {obs.get('ref_class')})")
+        if m["reactions"] * len(rep) != cc.get("reported", 0) or m["delivered"] != len(cc["rtc_exc"]):
+            return (f"conversion step ({cc['event']}): {len(cc['rtc_exc'])} exception(s) left run_to_completion; the model of the loop (class test "
+                    f"{'passes' if m['may_match_observed'] else 'fails'}) predicts {m['reactions']} reaction(s) of each observer of ColangError, the real "
+                    f"handlers {rep} reacted {cc.get('reported', 0)} time(s)")
     if "pipeline" in obs:
         m = mouts[i]
         i += 1
